@@ -128,7 +128,7 @@ impl Property for C15 {
     }
     fn runs(&self, tier: Tier) -> u64 {
         match tier {
-            Tier::Quick => 800_000,
+            Tier::Quick => 1_200_000,
             Tier::Thorough => 12_000_000,
         }
     }
